@@ -4,6 +4,7 @@ import (
 	"fmt"
 	"go/constant"
 	"go/token"
+	"regexp"
 	"sort"
 	"strings"
 
@@ -288,6 +289,7 @@ func checkC19(r *core.Run) {
 		r.Check(len(starts) > 0 && !bad, "R-C19-order", "change-recorded/"+n, p.Pos(fn.Pos()), "every way out after changing the index queues the key or marks the volatile store as modified", n+" can return after changing the in-memory index without queueing the key or marking the store modified: in volatile mode Close() then writes nothing and the change is lost")
 	}
 	c19DirtyMarkKept(r, p, "R-C19-order")
+	c19FileNameRadix(r, p, "R-C19-load")
 	// data-file sequence: a new session writes to file number (highest sequence referenced by the index)+1; the
 	// highest sequence is raised for every record put into the index, new key or overwrite alike (otherwise a
 	// later session re-creates, i.e. truncates, a data file that live records still point into)
@@ -906,4 +908,57 @@ func c19DirtyMarkKept(r *core.Run, p *core.Program, rule string) {
 		})
 	}
 	r.Check(n >= 1, rule, "volatile-dirty-mark-kept/sites", "-", fmt.Sprintf("%d places clear the mark", n), "no place that clears NoSyncMode found")
+}
+
+// c19FileNameRadix: data files are named by their sequence number; the clean-up that removes files no record
+// refers to reads the number back from the name.  Writer and reader must use the same base and width: the
+// name is printed with the verb %08x and parsed with base 16 from the first 8 characters.  Printed in another
+// base, the clean-up takes a live file (sequence 10 named "00000010") for sequence 16 and removes it.
+func c19FileNameRadix(r *core.Run, p *core.Program, rule string) {
+	const key = "data-file-name-radix"
+	verbs := map[string]bool{}
+	bases := map[string]bool{}
+	for _, fn := range p.ModuleFuncs() {
+		if fn.Pkg == nil || !strings.HasSuffix(fn.Pkg.Pkg.Path(), "lib/others/qdb") {
+			continue
+		}
+		for _, c := range an.CallsTo(fn, false, "fmt.Sprintf", "fmt.Sprint", "fmt.Fprintf") {
+			for _, a := range c.Common().Args {
+				if k, ok := a.(*ssa.Const); ok && k.Value != nil && k.Value.Kind() == constant.String {
+					f := constant.StringVal(k.Value)
+					if !strings.HasSuffix(f, ".dat") {
+						continue
+					}
+					for _, m := range regexp.MustCompile(`%[0-9]*[a-zA-Z]`).FindAllString(f, -1) {
+						if m != "%s" {
+							verbs[m] = true
+						}
+					}
+				}
+			}
+		}
+		for _, c := range an.CallsTo(fn, false, "strconv.ParseUint", "strconv.ParseInt") {
+			a := c.Common().Args
+			if len(a) >= 2 {
+				bases[an.Expr(a[0])+" base "+an.Expr(a[1])] = true
+			}
+		}
+	}
+	var vs, bs []string
+	for v := range verbs {
+		vs = append(vs, v)
+	}
+	for b := range bases {
+		bs = append(bs, b)
+	}
+	sort.Strings(vs)
+	sort.Strings(bs)
+	okW := len(vs) == 1 && vs[0] == "%08x"
+	okR := len(bs) >= 1
+	for _, b := range bs {
+		if !strings.HasSuffix(b, "base 16") || !strings.Contains(b, "[:8]") {
+			okR = false
+		}
+	}
+	r.Check(okW && okR, rule, key, "-", "names printed with %08x, parsed as 8 hexadecimal digits", fmt.Sprintf("data file names are printed with %v and parsed with %v: writer and clean-up do not agree on base 16 / 8 digits, so the clean-up mistakes live files for unreferenced ones", vs, bs))
 }
